@@ -97,6 +97,11 @@ def _workload(case, rng):
         if max(parts) > np.iinfo(ddt).max:
             ddt = 'int32'
         data = rng.choice(parts, gen.data_shape(n, ws)).astype(ddt)
+        if rng.random() < 0.3:
+            # some traces carry a value that is not a class value: they must be ignored whatever the batching / kernel
+            foreign = max(parts) + 1 + int(rng.integers(0, 5))
+            if foreign <= np.iinfo(ddt).max:
+                data = np.where(rng.random(data.shape) < 0.15, np.array(foreign, dtype=ddt), data).astype(ddt)
     elif name in ('tstatic', 'tdpa'):
         K = int(rng.choice([2, 3, 5]))
         parts = list(range(K))
